@@ -180,15 +180,16 @@ Definition load (cfg_kid : string) (f : pem_file) : res state :=
 (* ------------------------------------------------------------------ claims *)
 
 (** claim values: strings and integers as such, any other JSON value by its canonical
-    text; [VSubj] (templates only) is the subject's id; [VJti n] is the n-th distinct
+    text; [VSubj], [VOut], [VAttr] (templates only) are the subject's id, the value of
+    .Outputs.x and of .Subject.Attributes.x of the request; [VJti n] is the n-th distinct
     freshly generated UUID of a run *)
-Inductive cval := VStr (s : string) | VInt (z : Z) | VRaw (json : string) | VSubj | VJti (n : nat).
+Inductive cval := VStr (s : string) | VInt (z : Z) | VRaw (json : string) | VSubj | VOut | VAttr | VJti (n : nat).
 
 Definition cval_eqb (a b : cval) : bool :=
   match a, b with
   | VStr x, VStr y | VRaw x, VRaw y => String.eqb x y
   | VInt x, VInt y => Z.eqb x y
-  | VSubj, VSubj => true
+  | VSubj, VSubj | VOut, VOut | VAttr, VAttr => true
   | VJti x, VJti y => Nat.eqb x y
   | _, _ => false
   end.
@@ -214,11 +215,16 @@ Fixpoint mset (k : string) (v : cval) (m : cmap) : cmap :=
 Definition merge (src : list (string * cval)) (dst : cmap) : cmap :=
   fold_left (fun d kv => mset (fst kv) (snd kv) d) src dst.
 
-Definition resolve (sub : string) (v : cval) : cval := match v with VSubj => VStr sub | _ => v end.
+(** what a request brings along: the subject's id, one pipeline output and one subject
+    attribute (the ones templates may refer to) *)
+Record req := { q_sub : string; q_out : string; q_attr : string }.
+
+Definition resolve (q : req) (v : cval) : cval :=
+  match v with VSubj => VStr (q_sub q) | VOut => VStr (q_out q) | VAttr => VStr (q_attr q) | _ => v end.
 
 (** the rendered claims template, unmarshalled *)
-Definition render (sub : string) (tmpl : list (string * cval)) : cmap :=
-  merge (map (fun kv => (fst kv, resolve sub (snd kv))) tmpl) [].
+Definition render (q : req) (tmpl : list (string * cval)) : cmap :=
+  merge (map (fun kv => (fst kv, resolve q (snd kv))) tmpl) [].
 
 (* ------------------------------------------------------------------ Sign *)
 
@@ -226,7 +232,9 @@ Definition second : Z := 1000000000.
 (** time.Time.Unix() of an instant given in nanoseconds since the epoch *)
 Definition unix (ns : Z) : Z := ns / second.
 
-Record token := { t_alg : string; t_kid : string; t_typ : string; t_key : keymat; t_claims : cmap }.
+(** [t_hdr]: "" if the token arrived in the upstream header the catalogue finalizer is configured with
+    (name and scheme), else what it arrived in — an observable of the driver, always "" in the model *)
+Record token := { t_alg : string; t_kid : string; t_typ : string; t_key : keymat; t_claims : cmap; t_hdr : string }.
 
 (** jose.NewSigner / Serialize succeed iff the key fits the algorithm: RSA keys sign
     with any PS*, an ECDSA key only with the ES* of its curve; public halves cannot sign *)
@@ -253,7 +261,7 @@ Definition sign (st : state) (iss sub : string) (ttl now : Z) (jti : cval) (cust
   let c := mset "iss" (VStr iss) c in
   let c := mset "nbf" (VInt (unix now)) c in
   let c := mset "sub" (VStr sub) c in
-  Ok {| t_alg := j_alg jwk; t_kid := j_kid jwk; t_typ := "JWT"; t_key := key; t_claims := c |}.
+  Ok {| t_alg := j_alg jwk; t_kid := j_kid jwk; t_typ := "JWT"; t_key := key; t_claims := c; t_hdr := "" |}.
 
 (* ------------------------------------------------------------------ finalizer + cache *)
 
@@ -263,6 +271,8 @@ Record config := {
   c_ttl : option Z;                (* ttl in ns *)
   c_claims : option (list (string * cval));   (* claims template, as the member list it renders *)
   c_cache : bool;                  (* is there a cache in the request context *)
+  c_twin : option string;          (* a second catalogue finalizer over the same key-store file and with the same
+                                      configuration except for signer.name, sharing the cache (its keys are not published) *)
   c_before : list pem_file;        (* key stores of other key holders registered before this finalizer ... *)
   c_after : list pem_file }.       (* ... and after it (each a jwt signer of its own, no key_id) *)
 
@@ -284,13 +294,18 @@ Definition with_config (c : config) (o : override) : res config :=
   Ok {| c_keyid := c_keyid c; c_name := c_name c;
         c_ttl := match o_ttl o with Some t => Some t | None => c_ttl c end;
         c_claims := match o_claims o with Some t => Some t | None => c_claims c end;
-        c_cache := c_cache c; c_before := c_before c; c_after := c_after c |}.
+        c_cache := c_cache c; c_twin := c_twin c; c_before := c_before c; c_after := c_after c |}.
 
-(** calculateCacheKey: signer hash (kid, alg, iss), template hash, ttl, subject hash, outputs.
-    Outputs are constant in a run; template and ttl differ between a prototype and its
-    rule-level variants.  With the repair of C16-F1 (fix: commit d9caf75: jwtSigner.Hash also
-    covers the thumbprint of the public key) the key itself is part of it. *)
-Record ckey := { ck_kid : string; ck_alg : string; ck_iss : string; ck_sub : string;
+(** the twin: the same configuration under another signer name *)
+Definition with_name (c : config) (n : string) : config :=
+  {| c_keyid := c_keyid c; c_name := n; c_ttl := c_ttl c; c_claims := c_claims c; c_cache := c_cache c;
+     c_twin := c_twin c; c_before := c_before c; c_after := c_after c |}.
+
+(** calculateCacheKey: signer hash (kid, alg, iss, and — since the repair of C16-F1, fix: commit
+    d9caf75 — the thumbprint of the public key), template hash, ttl, subject hash (id and
+    attributes), outputs.  Template and ttl differ between a prototype and its rule-level
+    variants, the issuer between a finalizer and its twin. *)
+Record ckey := { ck_kid : string; ck_alg : string; ck_iss : string; ck_sub : string; ck_out : string; ck_attr : string;
                  ck_key : option keyref; ck_ttl : Z; ck_claims : option (list (string * cval)) }.
 
 Definition tmpl_eqb (a b : list (string * cval)) : bool :=
@@ -298,45 +313,66 @@ Definition tmpl_eqb (a b : list (string * cval)) : bool :=
 
 Definition ckey_eqb (a b : ckey) : bool :=
   String.eqb (ck_kid a) (ck_kid b) && String.eqb (ck_alg a) (ck_alg b) && String.eqb (ck_iss a) (ck_iss b)
-  && String.eqb (ck_sub a) (ck_sub b) && option_eqb keyref_eqb (ck_key a) (ck_key b)
+  && String.eqb (ck_sub a) (ck_sub b) && String.eqb (ck_out a) (ck_out b) && String.eqb (ck_attr a) (ck_attr b)
+  && option_eqb keyref_eqb (ck_key a) (ck_key b)
   && Z.eqb (ck_ttl a) (ck_ttl b) && option_eqb tmpl_eqb (ck_claims a) (ck_claims b).
 
-Definition cache := list (ckey * token).
-Fixpoint cache_get (k : ckey) (c : cache) : option token :=
+(** the cache of the request context: entries expire; the clock is the cache's own
+    (the driver's cache stub runs on a virtual clock that [OWait] advances) *)
+Definition cache := list (ckey * token * Z).        (* key, value, expires at *)
+Fixpoint cache_get (k : ckey) (clock : Z) (c : cache) : option token :=
   match c with
   | [] => None
-  | (k', t) :: r => if ckey_eqb k k' then Some t else cache_get k r
+  | (k', t, e) :: r => if ckey_eqb k k' then (if (clock <? e)%Z then Some t else None) else cache_get k clock r
   end.
 
-Record world := { w_st : state; w_cache : cache; w_minted : nat }.
+Record world := { w_st : state; w_cache : cache; w_minted : nat; w_clock : Z }.
 
-(** jwtFinalizer.Execute for a non-nil subject with id [sub] at time [now], on the
-    prototype or a variant ([c] = its effective configuration);
-    [fixed_F1] = is the repair of C16-F1 in the tree *)
-Definition exec (fixed_F1 : bool) (c : config) (w : world) (sub : string) (now : Z) : world * res token :=
-  let st := w_st w in
-  let key : ckey := {| ck_kid := j_kid (s_jwk st); ck_alg := j_alg (s_jwk st); ck_iss := issuer c; ck_sub := sub;
-                       ck_key := if fixed_F1 then Some (keyref_of (j_key (s_jwk st))) else None;
-                       ck_ttl := ttl_of c; ck_claims := c_claims c |} in
-  match (if c_cache c then cache_get key (w_cache w) else None) with
-  | Some t => (w, Ok t)
-  | None =>
-    let custom := match c_claims c with Some t => render sub t | None => [] end in
-    match sign st (issuer c) sub (ttl_of c) now (VJti (w_minted w)) custom with
-    | Ok t =>
-      let cch := if c_cache c && (cache_leeway <? ttl_of c)%Z then (key, t) :: w_cache w else w_cache w in
-      ({| w_st := st; w_cache := cch; w_minted := S (w_minted w) |}, Ok t)
-    | Err => (w, Err)
-    | Panic => (w, Panic)
-    end
-  end.
+(** which repairs are in the tree: C16-F1 (cache key covers the key itself), C16-F2 (the
+    token is cached under the key of the JWK it was actually signed with) *)
+Record fixes := { fx_F1 : bool; fx_F2 : bool }.
 
 (** OnChanged: load, swap on success, keep the state otherwise *)
 Definition reload (c : config) (w : world) (f : pem_file) : world * res unit :=
   match load (c_keyid c) f with
-  | Ok st => ({| w_st := st; w_cache := w_cache w; w_minted := w_minted w |}, Ok tt)
+  | Ok st => ({| w_st := st; w_cache := w_cache w; w_minted := w_minted w; w_clock := w_clock w |}, Ok tt)
   | Err => (w, Err)
   | Panic => (w, Panic)
+  end.
+
+Definition reloads (c : config) (w : world) (fs : list pem_file) : world :=
+  fold_left (fun w f => fst (reload c w f)) fs w.
+
+(** jwtSigner.Hash() + the rest of calculateCacheKey, on the JWK read in Hash's critical section *)
+Definition key_of (fx : fixes) (c : config) (st : state) (q : req) : ckey :=
+  {| ck_kid := j_kid (s_jwk st); ck_alg := j_alg (s_jwk st); ck_iss := issuer c;
+     ck_sub := q_sub q; ck_out := q_out q; ck_attr := q_attr q;
+     ck_key := if fx_F1 fx then Some (keyref_of (j_key (s_jwk st))) else None;
+     ck_ttl := ttl_of c; ck_claims := c_claims c |}.
+
+(** jwtFinalizer.Execute for a non-nil subject at time [now], on the prototype, the twin
+    or a variant ([c] = its effective configuration).  Execute enters the signer's read
+    lock twice: in Hash() for the cache key, and — after the cache lookup — in Sign().
+    [mids] are the key-store reloads that land between the two (none in a quiet system).
+    As the code is (C16-F2), the fresh token is stored under the key computed *before*
+    them; with the repair under the key of the JWK Sign used. *)
+Definition exec (fx : fixes) (c : config) (w : world) (q : req) (now : Z) (mids : list pem_file)
+  : world * res token :=
+  let key0 := key_of fx c (w_st w) q in
+  match (if c_cache c then cache_get key0 (w_clock w) (w_cache w) else None) with
+  | Some t => (reloads c w mids, Ok t)
+  | None =>
+    let w1 := reloads c w mids in
+    let custom := match c_claims c with Some t => render q t | None => [] end in
+    match sign (w_st w1) (issuer c) (q_sub q) (ttl_of c) now (VJti (w_minted w1)) custom with
+    | Ok t =>
+      let key1 := if fx_F2 fx then key_of fx c (w_st w1) q else key0 in
+      let cch := if c_cache c && (cache_leeway <? ttl_of c)%Z
+                 then (key1, t, w_clock w1 + (ttl_of c - cache_leeway))%Z :: w_cache w1 else w_cache w1 in
+      ({| w_st := w_st w1; w_cache := cch; w_minted := S (w_minted w1); w_clock := w_clock w1 |}, Ok t)
+    | Err => (w1, Err)
+    | Panic => (w1, Panic)
+    end
   end.
 
 (** what another key holder publishes (a holder whose creation fails is never registered) *)
@@ -356,23 +392,34 @@ Definition verifies (t : token) (ks : list jwk) : bool :=
 (* ------------------------------------------------------------------ histories *)
 
 Inductive op :=
-| OExec (ov : option override) (sub : string) (now : Z)
-     (* Execute on the prototype (None) or on prototype.WithConfig(override);
-        [now] = the instant Sign reads if it mints *)
+| OExec (twin : bool) (ov : option override) (q : req) (now : Z) (mids : list pem_file)
+     (* Execute on the catalogue finalizer or its twin, or on a rule-level variant
+        (WithConfig(override)) of it; [now] = the instant Sign reads if it mints;
+        [mids] = files the key store is replaced by (each followed by OnChanged) between
+        Execute's cache lookup and its call of Sign *)
 | OReload (f : pem_file)              (* the key-store file is replaced, OnChanged runs *)
-| OJwks.                              (* GET /.well-known/jwks *)
+| OJwks                               (* GET /.well-known/jwks *)
+| OWait (d : Z).                      (* the cache's clock advances by d ns *)
 
 Inductive oobs :=
 | XToken (t : token) (verified : bool)   (* verified: against the key set served right after *)
 | XErr | XPanic | XDone
 | XJwks (ks : list jwk).
 
-Definition step (fixed_F1 : bool) (c : config) (w : world) (o : op) : world * oobs :=
+(** which finalizer a rule step runs *)
+Definition target (c : config) (twin : bool) (ov : option override) : res config :=
+  match (if twin then match c_twin c with Some n => Ok (with_name c n) | None => Err end else Ok c) with
+  | Ok b => match ov with None => Ok b | Some o => with_config b o end
+  | Err => Err
+  | Panic => Panic
+  end.
+
+Definition step (fx : fixes) (c : config) (w : world) (o : op) : world * oobs :=
   match o with
-  | OExec ov sub now =>
-    match (match ov with None => Ok c | Some o => with_config c o end) with
+  | OExec twin ov q now mids =>
+    match target c twin ov with
     | Ok ce =>
-      match exec fixed_F1 ce w sub now with
+      match exec fx ce w q now mids with
       | (w', Ok t) => (w', XToken t (verifies t (jwks c w')))
       | (w', Err) => (w', XErr)
       | (w', Panic) => (w', XPanic)
@@ -387,28 +434,29 @@ Definition step (fixed_F1 : bool) (c : config) (w : world) (o : op) : world * oo
     | (w', Panic) => (w', XPanic)
     end
   | OJwks => (w, XJwks (jwks c w))
+  | OWait d => ({| w_st := w_st w; w_cache := w_cache w; w_minted := w_minted w; w_clock := (w_clock w + d)%Z |}, XDone)
   end.
 
-Fixpoint steps (fixed_F1 : bool) (c : config) (w : world) (ops : list op) : list oobs :=
+Fixpoint steps (fx : fixes) (c : config) (w : world) (ops : list op) : list oobs :=
   match ops with
   | [] => []
-  | o :: r => let '(w', x) := step fixed_F1 c w o in x :: steps fixed_F1 c w' r
+  | o :: r => let '(w', x) := step fx c w o in x :: steps fx c w' r
   end.
+
+Definition world0 (st : state) : world := {| w_st := st; w_cache := []; w_minted := 0; w_clock := 0 |}.
 
 (** newJWTFinalizer: decode (ttl must exceed 1s), newJWTSigner = first load *)
 Definition create (c : config) (f : pem_file) : res world :=
   match c_ttl c with
   | Some t => if (t <=? second)%Z then Err else
-              match load (c_keyid c) f with
-              | Ok st => Ok {| w_st := st; w_cache := []; w_minted := 0 |} | Err => Err | Panic => Panic end
-  | None => match load (c_keyid c) f with
-            | Ok st => Ok {| w_st := st; w_cache := []; w_minted := 0 |} | Err => Err | Panic => Panic end
+              match load (c_keyid c) f with Ok st => Ok (world0 st) | Err => Err | Panic => Panic end
+  | None => match load (c_keyid c) f with Ok st => Ok (world0 st) | Err => Err | Panic => Panic end
   end.
 
 (** a whole run: creation outcome, then one observation per operation *)
-Definition run (fixed_F1 : bool) (c : config) (f : pem_file) (ops : list op) : res unit * list oobs :=
+Definition run (fx : fixes) (c : config) (f : pem_file) (ops : list op) : res unit * list oobs :=
   match create c f with
-  | Ok w => (Ok tt, steps fixed_F1 c w ops)
+  | Ok w => (Ok tt, steps fx c w ops)
   | Err => (Err, [])
   | Panic => (Panic, [])
   end.
